@@ -44,13 +44,13 @@ REST = {
  "C04": ("Lean 4 proof (reverse Two-Way by reversal bridge to the forward certificate; reverse Rabin-Karp; memrchr) + differential correspondence",
          "Machine-checked theorem C04.rfind_all / oneshot_all: the model of FinderRev / memmem::rfind returns exactly the rightmost occurrence for every needle and haystack; empty needle -> Some(len)."),
  "C05": ("Lean 4 proof (every load goes through bounds/alignment-checked model loads; master theorems conclude `= ok`, out-of-domain theorems for foreign needles) + load-trace equality with the real generic code on checked small-lane vectors / emulated NEON+simd128, hooked raw reads, guard pages",
-         "Machine-checked theorems: no routine of the model ever performs an out-of-bounds or misaligned load, in its documented domain (corollary of `= ok`) and outside it (Rabin-Karp with a foreign finder, packed pair with a foreign needle). Tie to the code: the load trace of the real generic code (Small<N> checked vectors, emulated NEON/simd128 intrinsics, hooked raw reads in is_equal/Rabin-Karp/SWAR) equals the model's trace on every run, and real SSE2/AVX2 code runs against PROT_NONE guard pages."),
+         "Machine-checked theorems: no routine of the model ever performs an out-of-bounds or misaligned load, in its documented domain (corollary of `= ok`) and outside it (Rabin-Karp with a foreign finder, packed pair with a foreign needle). Tie to the code: the load trace of the real generic code (Small<N> checked vectors, emulated NEON/simd128 intrinsics incl. simd128's aligned dereference, hooked raw reads in is_equal/Rabin-Karp/SWAR) equals the model's trace on every run, real SSE2/AVX2 code runs against PROT_NONE guard pages (operands ending at a page end, finders built from foreign pairs and then used), and a per-op watchdog turns a non-terminating change into a reported hang."),
  "C06": ("Lean 4 proof (refinement of the raw-pointer iterator to an abstract deque of match positions, by induction over arbitrary next/next_back/size_hint/count sequences) + differential correspondence",
          "Machine-checked theorem C06.refines_cfg/backend: for every haystack, needle set, backend and every finite operation sequence the iterator's outputs equal those of the abstract iterator (front ascending, back descending, each match exactly once, None forever once empty) and size_hint brackets the remaining count."),
  "C08": ("Lean 4 proof (greedy non-overlapping sequence by induction on the position; size_hint bracket; empty needle) + differential correspondence",
          "Machine-checked theorems C08.find_iter_all / rfind_iter_all / size_hint: the next() results of find_iter are exactly Spec.greedyFwd then None forever (rfind_iter: greedyRev), for every needle/haystack/configuration, with the prefilter state threaded through; size_hint brackets the matches still to come in every reachable state; empty needle yields 0..=len once."),
- "C09": ("Lean 4 proof (every configuration's routine equals the same specification; `select` mirrors the cfg chain and is_available) + the same case stream through host AVX2, forced SSE2, forced fallback, emulated NEON, emulated simd128, alloc-only and +avx2 builds",
-         "Machine-checked theorems C09.agree*: for all pairs of configurations every byte-search and substring routine returns the same value. Correspondence: real code in 5 (quick) / 7 (thorough) configurations against the model instance of each."),
+ "C09": ("Lean 4 proof (every configuration's routine equals the same specification; `select` mirrors the cfg chain and is_available) + the same case stream through host AVX2, forced SSE2, forced fallback, emulated NEON, emulated simd128, a build with no vector module at all, alloc-only and +avx2 builds",
+         "Machine-checked theorems C09.agree*: for all pairs of configurations every byte-search and substring routine returns the same value. Correspondence: real code in 8 configurations (host AVX2, forced SSE2, forced fallback, emulated NEON, emulated simd128, no-vector-module target, and - sampled in quick, in full in thorough - the alloc-only and +avx2 builds) against the model instance of each."),
  "C10": ("Lean 4 proof (corollary of C03 being universally quantified over prefilter config, ranker and PrefilterState) + differential correspondence over 7 ranker families x 2 prefilter settings x prefilter states",
          "Machine-checked theorems C10.find_indep_all / builder_indep_all: results do not depend on the prefilter configuration, the ranker (any function u8->u8) or the adaptive prefilter state; is_effective never faults (after fix F1)."),
  "C11": ("Lean 4 proof (chunk-wise lane invariant for the vector prefilter incl. re-aligned final chunk; portable prefilter loop invariant; find_simple) + differential correspondence",
@@ -63,7 +63,7 @@ REST = {
          "Machine-checked theorems: no routine faults in its documented domain (all debug_assert!s and checked arithmetic sites of the model are discharged); the packed-pair finders panic exactly when haystack.len() < min_haystack_len; PrefilterState::is_effective is total. Two genuine defects found and fixed (F1, F2 in known_findings.json)."),
  "C15": ("Lean 4 proof over an abstract model of the ifunc cell (any schedule, relaxed loads return any value ever stored) + fresh-process barrier-released multi-threaded runs on three detection outcomes",
          "Machine-checked theorem C15.any_schedule: every call returns what it returns in isolation, for every number of threads, schedule and load choice. PARTIAL BY NATURE: tearing, the hardware memory model and data races in unsafe Send/Sync impls cannot be expressed in the model (trusted); the extractor checks that the only atomic/interior-mutable state in the crate is the ifunc AtomicPtr."),
- "C16": ("Lean 4 proof (finder op machine: outputs are a function of needle bytes and ops only; as_ref/clone/into_owned invisible to every continuation) + differential correspondence with needle buffer overwritten after into_owned",
+ "C16": ("Lean 4 proof (finder op machine: outputs are a function of needle bytes and ops only; as_ref/clone/into_owned invisible to every continuation) + differential correspondence with the needle buffer overwritten after into_owned and with needle and haystack as overlapping windows of one buffer",
          "Machine-checked theorems C16.finder_run_all etc.: every find in any op sequence returns leftmost(haystack, needle) regardless of history; copies behave identically; needle() returns the construction bytes."),
  "C17": ("Lean 4 proof of the ownership/allocation bookkeeping + counting global allocator armed around every real call with the hook recorder off",
          "Machine-checked theorems: only into_owned of a borrowed needle and clone of an owned one allocate (exact count), search/construction cannot (they have no heap access in the model). PARTIAL BY NATURE: an allocation hidden inside a real search routine is invisible to the model; the counting-allocator correspondence observes it on every C01-C08 op family."),
